@@ -1108,6 +1108,16 @@ where
         heights
     };
 
+    // The arity schedule in the proof fixes `log_global_max_height`; a committed matrix taller
+    // than that (inconsistent degree bits or log_arity values) is a malformed proof.
+    if let Some(&tallest) = unique_heights_desc.first()
+        && tallest > log_global_max_height
+    {
+        return Err(VerificationError::InvalidProofShape(format!(
+            "matrix of log height {tallest} exceeds the FRI domain of log size {log_global_max_height}"
+        )));
+    }
+
     let eval_points = if unique_heights_desc.is_empty() {
         BTreeMap::new()
     } else {
